@@ -4,6 +4,7 @@ from vv.registry import PROPS, COMMON_ASSUME, rc
 harness("h_c20", ["harness/h_c20.cc"], libs=("csg",))
 
 PROPS["C20"] = dict(
+    repo_targets=("votca_tools", "votca_csg"),
     parts=[rc("h_c20", quick=dict(cases=20000, procs=1, args=["--enum", "1"], budget_s=300),
               thorough=dict(cases=400000, procs=4, args=["--enum", "1"], budget_s=900))],
     rule=("units: EXHAUSTIVE over every ordered triple (a,b,c) of enumerators in each of the nine UnitConverter dimensions "
